@@ -43,9 +43,31 @@ def behaviour(T, top, inputs, rename=None):
     try:
         dflt = T()
         out.append(("default", repr(norm_or_err(dflt, top)[0]), dflt.dumps() if T.size is not None or True else None))
+        # two default constructions never hand out the same mutable object (list / nested structure)
+        other = T()
+        shared = []
+        for f in T.__fields__:
+            va, vb = dflt.__dict__.get(f._name), other.__dict__.get(f._name)
+            if va is vb and isinstance(va, (list, lib.Structure)):
+                shared.append(f._name)
+        out.append(("defaults-shared-between-instances", shared))
     except Exception as ex:  # noqa: BLE001
         out.append(("default-err", type(ex).__name__))
     return out
+
+
+class Deliberate(Exception):
+    pass
+
+
+def use_intermediate(inc, rng):
+    """Instances of the not yet complete structure exist before it is extended further."""
+    try:
+        inc()
+        if rng.random() < 0.5:
+            inc(bytes(64))
+    except Exception:  # noqa: BLE001
+        pass
 
 
 def split_pattern(rng, n):
@@ -112,11 +134,26 @@ def check_case(ctx, case, rng):
             inc = cs._make_struct("T", [], align=cfgd["align"], base=base)
             if cfgd["compiled"] and base is Structure:
                 inc = compiler.compile(inc)
+            used = raised = 0
             try:
                 for kind, idxs in steps:
+                    if rng.random() < 0.4:
+                        use_intermediate(inc, rng)
+                        used += 1
                     if kind == "single":
                         f = T.__fields__[idxs[0]]
                         inc.add_field(f.name, f.type, bits=f.bits)
+                    elif rng.random() < 0.3:
+                        # the block is left by an exception after its fields were added: they are committed all the
+                        # same (start_update commits on the way out), nothing half-updated stays behind
+                        try:
+                            with inc.start_update():
+                                for i in idxs:
+                                    f = T.__fields__[i]
+                                    inc.add_field(f.name, f.type, bits=f.bits)
+                                raise Deliberate
+                        except Deliberate:
+                            raised += 1
                     else:
                         with inc.start_update():
                             for i in idxs:
@@ -130,6 +167,10 @@ def check_case(ctx, case, rng):
                                    "one-batch" if len(steps) == 1 else "mixed"))
             for t in transitions(top, cfg):
                 ctx.cell("transition:" + t)
+            if used:
+                ctx.cell("instances-exist-before-extension")
+            if raised:
+                ctx.cell("batch-left-by-exception")
             if sig_without_name(inc) != sig_without_name(T):
                 viol("layout", "incremental-layout-differs-from-one-shot", steps=steps,
                      got=repr(sig_without_name(inc))[:500], want=repr(sig_without_name(T))[:500])
